@@ -463,8 +463,17 @@ impl FixtureDatabase {
                     continue;
                 }
 
-                // Skip autouse fixtures (they're used implicitly)
-                if def.autouse {
+                // Skip autouse fixtures (they're used implicitly). When a name is defined more
+                // than once in a file, the fixture pytest registers is the last definition, so
+                // its autouse flag decides for the whole (file, name) entry.
+                let effective_autouse = entry
+                    .value()
+                    .iter()
+                    .filter(|d| d.file_path == def.file_path)
+                    .max_by_key(|d| d.line)
+                    .map(|d| d.autouse)
+                    .unwrap_or(def.autouse);
+                if effective_autouse {
                     continue;
                 }
 
